@@ -278,6 +278,30 @@ func mapiterrand(h *hmap) uint64 {
 // parameter instead of the mempool's (the proposer with a hostile mempool): derived from the CURRENT source, so it
 // follows whatever ProposeBlock does in the tree under test. If the shape is not recognised a fallback that simply
 // calls ProposeBlock is emitted (the harness then loses that operator, nothing else).
+var shardKnobs bool
+
+// constsToVars turns top-level single-name const declarations of the given names into var declarations.
+func constsToVars(f *ast.File, names ...string) bool {
+	want := map[string]bool{}
+	for _, n := range names {
+		want[n] = true
+	}
+	found := 0
+	for _, d := range f.Decls {
+		gd, ok := d.(*ast.GenDecl)
+		if !ok || gd.Tok != token.CONST || len(gd.Specs) != 1 {
+			continue
+		}
+		vs, ok := gd.Specs[0].(*ast.ValueSpec)
+		if !ok || len(vs.Names) != 1 || !want[vs.Names[0].Name] || len(vs.Values) != 1 {
+			continue
+		}
+		gd.Tok = token.VAR
+		found++
+	}
+	return found == len(names)
+}
+
 func deriveProposeWithTxs(fset *token.FileSet, path string, f *ast.File) {
 	ok := false
 	if f2, err := parser.ParseFile(fset, path, nil, 0); err == nil {
@@ -411,7 +435,13 @@ func main() {
 		if rel == "blockchain/blockchain.go" {
 			deriveProposeWithTxs(fset, path, f)
 		}
-		if !rewrite(fset, f, rel, &st) {
+		knobbed := false
+		if rel == "common/sharding.go" {
+			// tuning knobs: the shard size limits become variables the simulator sets per run (DESIGN 11.7)
+			knobbed = constsToVars(f, "MinShardSize", "MaxShardSize")
+			shardKnobs = knobbed
+		}
+		if !rewrite(fset, f, rel, &st) && !knobbed {
 			return nil
 		}
 		var buf bytes.Buffer
@@ -426,6 +456,17 @@ func main() {
 		nfiles++
 		return nil
 	}))
+	// setter for the tuning knobs (a no-op reporting false if the constants were not found in the current source)
+	{
+		body := "return false"
+		if shardKnobs {
+			body = "MinShardSize, MaxShardSize = min, max\n\treturn true"
+		}
+		src := "package common\n\n// Added only through the build overlay (/verif/simgen).\n\n// VerifSetShardSizes sets the shard size limits (defaults 2400 / 5000).\nfunc VerifSetShardSizes(min, max int) bool {\n\t" + body + "\n}\n"
+		dst := filepath.Join(*out, "src", "common__zz_verif_knobs.go.txt")
+		must(os.WriteFile(dst, []byte(src), 0644))
+		ov[filepath.Join(*repo, "common", "zz_verif_knobs.go")] = dst
+	}
 	// ipfs stub (kubo does not build on the installed toolchains)
 	ov[filepath.Join(*repo, "ipfs", "ipfs.go")] = filepath.Join(*tpl, "templates", "ipfs_stub.go.txt")
 	// seam package (exists only in the overlay)
